@@ -15,7 +15,7 @@ import GdcVerif.Model.ParseCore
   fields 0 and 1, i.e. the Go offset moves BACK into the length field.
   MCT / MCC / MCO (Part 2 multi-component transform) segments are parsed as in parseMCT / parseMCC /
   parseMCO: they are counted; what the DECODER later does with them (extractBindings,
-  applyDecoderMCTBindings: index uses of the component ids) is outside this model.
+  applyDecoderMCTBindings: index uses of the component ids) is modelled in Model/J2kMct.lean.
 -/
 namespace J2kH
 open PC
